@@ -210,6 +210,47 @@ def with_container(name, sname, inner, fixed=0):
     return out
 
 
+def oob_full_inputs(name):
+    """for every element of a message whose length field could express more than its maximum: the element with a declared
+    length just above the maximum and at the top of the length field's range (where an addition in the field's own width
+    wraps around), WITH that many content octets present - only the bounds guard can reject these"""
+    t = TBL[name]; mv = minimal_value(name); nh = len(header(name)); out = []
+    mslots = [q for q in t["slots"] if q["mand"]]
+    def lens(s):
+        top = 256 ** s["lsz"] - 1
+        mx = max(s["lens"]) if s.get("lens") else s["max"]
+        if mx >= top: return []
+        return sorted({mx + 1, mx + 2, top - 2, top - 1, top} - {l for l in (s.get("lens") or [])})
+    def enc_len(s, l): return [l] if s["lsz"] == 1 else [l >> 8, l & 255]
+    body = lambda skip=None, repl=None: [x for k, (val, ts) in enumerate(zip(mv["mand"], mslots)) for x in (repl if ts["name"] == skip else _enc_slot(val, ts))]
+    for s in t["slots"]:
+        if s["lsz"] == 0: continue
+        for l in lens(s):
+            el = enc_len(s, l) + [(i * 13 + 5) % 256 for i in range(l)]
+            if s["mand"]:
+                out.append(body(skip=s["name"], repl=el))
+            elif not s["half"]:
+                out.append(body() + [s["iei"]] + el)
+    return out
+
+
+def full_plus_inputs(base, singles, unknown):
+    """the complete set of optional elements of a message (one per identifier, table order as generated) followed by one MORE
+    element: each element again with other contents (last duplicate wins), each element cut short, an unknown identifier"""
+    byiei = {}
+    for e in singles: byiei.setdefault(e[0] if e[0] < 128 else e[0] // 16, []).append(e)
+    firsts = [min(es, key=len) for _, es in sorted(byiei.items())]
+    full = base + [x for e in firsts for x in e]
+    out = [full, full + [unknown]]
+    for _, es in sorted(byiei.items()):
+        a, b = min(es, key=len), max(es, key=len)
+        alt = [a[0]] + [(x ^ 0x5A) if i >= len(a) - 1 and len(a) > 2 else x for i, x in enumerate(a[1:], 1)] if a == b else b
+        out.append(full + alt)
+        if len(a) > 1:
+            out.append(full + a[:1]); out.append(full + a[:-1])
+    return out
+
+
 def confirm_by_tlc(c, drv, case, trace_module, cls, context=()):
     """re-run one case in a fresh driver process - alone, and if that does not reproduce, after the cases that
     preceded it (the driver interleaves a call on the previous case's message, so a mismatch may need that
